@@ -25,6 +25,9 @@ def main():
     if not os.path.isdir(wt):
         os.makedirs(scratch, exist_ok=True)
         subprocess.check_call(["git", "-C", "/repo", "worktree", "add", "--detach", wt, "HEAD"], stdout=subprocess.DEVNULL)
+    head = subprocess.check_output(["git", "-C", "/repo", "rev-parse", "HEAD"]).decode().strip()
+    subprocess.call(["git", "-C", wt, "checkout", "-q", "--", "."])
+    subprocess.check_call(["git", "-C", wt, "checkout", "-q", "--detach", head])
     def reset():
         subprocess.check_call(["git", "-C", wt, "checkout", "-q", "--", "."])
         subprocess.check_call(["git", "-C", wt, "clean", "-fdq", "-e", "target"])
